@@ -258,6 +258,23 @@ def replay_state(st):
         i, err, _ = run_program(ser, ops[: bad_at + 1])
         if i != bad_at or err != "ReusedTargetError":
             dis += 1
+        # the same program with the re-used value NOT in the description but registered as a default (SerDes.tla:
+        # UseTarget marks a target used wherever its value came from).  The deserialiser refuses this program; if
+        # the serialiser accepts it, it has serialised a description that does not deserialise: round trip broken.
+        t = ops[bad_at]["t"]
+        if ops[bad_at]["op"] == "prim" and not any(o["op"] in ("enter", "declare_list") for o in ops[:bad_at]) and isinstance(d, dict) and t in d and not isinstance(d[t], (list, dict)):
+            d2 = copy.deepcopy(d)
+            val = d2.pop(t)
+            f2 = io.BytesIO()
+            wr2 = bio.BitstreamWriter(f2)
+            ser2 = sdm.Serialiser(wr2, d2, {type(d2): {t: val}})
+            i2, err2, _ = run_program(ser2, ops[: bad_at + 1])
+            if err2 == "none":
+                wr2.flush()
+                des2 = sdm.Deserialiser(bio.BitstreamReader(io.BytesIO(f2.getvalue() + b"\xff\xff\xff\xff")))
+                i3, err3, _ = run_program(des2, ops[: bad_at + 1])
+                if err3 != "none" or not same(des2.context, d):
+                    viol.append(("C21|roundtrip|default-used-twice", "%s with %r omitted and registered as a default: the serialiser accepted the program, the deserialiser ended with %s at call %s on its output" % (desc(), t, err3, i3)))
         return {"violations": viol, "dis": dis, "evals": 2 * (bad_at + 1)}
     if bad_at is not None and last["o"]["op"] != "verify":
         # ValueError from a bounded block that is too small / nesting errors: C20's business, logged only
